@@ -4,7 +4,7 @@
 # Then (optionally, CHECKS="C01 C05") apply it to /repo, run the named quick checks, undo.
 export GOFLAGS=-mod=mod GOPROXY=off GOSUMDB=off GOTOOLCHAIN=local
 P=$1; N=${2:-1}
-SRC=/tmp/seed-$P-out
+SRC=${SEEDROOT:-/tmp/seed}-$P-out
 if [ "$N" = 1 ]; then PATCH=$SRC/patch.diff; DEMO=$(ls $SRC/demo_test.go $SRC/demo/main.go 2>/dev/null | head -1); else PATCH=$SRC/patch$N.diff; DEMO=$(ls $SRC/demo${N}_test.go $SRC/demo$N/main.go 2>/dev/null | head -1); fi
 [ -f "$PATCH" ] || { echo "no patch $PATCH"; exit 2; }
 W=/var/tmp/seedeval-$P-$N-$$
